@@ -1417,7 +1417,8 @@ hist_process(Hist& h)
 }
 
 // run one history; `key` empty: any stale/crash/nofresh result is an ORACLE-FAIL; otherwise KNOWN-CANDIDATE key
-// kind: `clean` (guard opOk, oracle strict), `clean2` (weaker guard of runGuarded2, oracle strict), `dirty`
+// kind: `clean` (guard opOk, oracle strict), `clean2` (weaker guard of runGuarded2, oracle strict), `strict` (no guard, oracle
+// strict), `dirty` (no guard; a stale / crashing result is a KNOWN-CANDIDATE if a key is given, else only compared with the model)
 static void
 run_history(const World& w, const std::vector<string>& lines, const string& kind, const string& key, const string& what, bool rnd = false,
             int out_mode = 0, bool check_flipped = false)
@@ -1429,7 +1430,7 @@ run_history(const World& w, const std::vector<string>& lines, const string& kind
   hist_new(h, w, rnd);
   h.out_mode = out_mode;
   h.check_flipped = check_flipped;
-  const bool strict = kind == "clean" || kind == "clean2";
+  const bool strict = kind == "clean" || kind == "clean2" || kind == "strict";
   string trace = string("new; set_rnd ") + (rnd ? "1" : "0");
   bool set_up_succeeded_last = false; // set_up() returned Succeeded::yes and nothing was set since
   for (const string& line : lines)
@@ -1783,6 +1784,16 @@ three_step_histories(const World& w, vh::Rng& rng)
     append(l, { "set_up", "process", "set_cache_enabled 0", "process", "set_cache_enabled 1", "set_up", "process", "parse_use_cache 0", "set_up", "process",
                 "parse_use_cache 1", "set_up", "process" });
     run_history(w, l, "clean2", "", "", false, 1, true);
+  }
+  // … and WITHOUT set_up after switching on again: set_cache_enabled leaves the arrays alone, so they are still there and still
+  // right (this is what distinguishes it from set_use_cache, which clears them: the same history with set_use_cache is the
+  // known class `enabling-cache-after-set-up-reads-unallocated-cache`). Outside both guards of the Lean theorems (they
+  // exclude enabling on a set-up object without set_up): kind `strict` = oracle strict, state machine compared unguarded.
+  {
+    std::vector<string> l = base_config(0, 1, 0, 1, 2, 0, 0);
+    append(l, { "set_up", "process", "set_cache_enabled 0", "process", "set_cache_enabled 1", "process", "parse_use_cache 0", "process", "parse_use_cache 1",
+                "process", "set_act 1", "set_up", "process", "set_cache_enabled 0", "set_cache_enabled 1", "process" });
+    run_history(w, l, "strict", "", "", false, 0, true);
   }
   // template of the same sizes / scatter-point image with the same number of points while the cache is off
   {
